@@ -486,6 +486,8 @@ def source_constants(repo):
                         and len(call.args) == 1 and isinstance(call.args[0], ast.Name) and call.args[0].id == 'BUF_SIZE'
                         and [a.arg for a in tr.args.args] == ['self'] and not tr.decorator_list):
                     shape = 'return %s.recv(BUF_SIZE)' % ast.unparse(call.func.value)
+            if shape is None and [a.arg for a in tr.args.args] == ['self'] and not tr.decorator_list:
+                shape = '\n'.join(ast.unparse(s) for s in body)         # any other body: its normalised text (comments dropped)
         res[fn + '._transport_read'] = shape
     return res
 
